@@ -233,6 +233,11 @@ def judge (c : Case) : String :=
   if its.length ≠ (c.ops.filter (· == Op.next)).length then "BAD item count" else
   -- (a') the fake cut the conversation off: the scanner kept sending requests without getting anywhere
   if its.any (fun it => it.err == some "toomany") then s!"SPEC key=no-progress-{dir}-{mode}" else
+  -- (a'') a request that names a region scanner went, by its row key, to another region than the one
+  -- that scanner was opened on (the fake answers as the server of that region would: it does not
+  -- know the id): the scan fails on a healthy cluster, or — for a close request — the lease stays
+  if c.replies.any (fun r => r == Reply.err "misrouted") then
+    s!"SPEC key=scanner-request-misrouted-{dir}-{mode} trace={String.intercalate ";" (c.trace.map reqStr)}" else
   -- (b) an error or end-of-scan is reported once, EOF from then on
   let fromErr : List Item := its.dropWhile (fun it => !hasErr it)
   if (fromErr.drop 1).any (fun it => it != eofItem) then
@@ -243,6 +248,10 @@ def judge (c : Case) : String :=
   -- (c) leases
   let ended : Bool := c.ops.contains Op.close || its.any hasErr
   let endKind : String := firstEnd c.ops its
+  -- (c0) the scan's context ended while the request that opens a region scanner was in flight: the
+  -- server has opened it, the client never learns its id and cannot close it
+  if c.replies.any (fun r => r == Reply.err "lostopen") && ended && !c.opn.isEmpty then
+    s!"SPEC key=lease-leak-cancel-while-open-in-flight open={c.opn}" else
   if ended && !c.opn.isEmpty then s!"SPEC key=lease-leak-{endKind} open={c.opn}" else
   if c.opn.length > 1 then s!"SPEC key=lease-leak-running open={c.opn}" else
   match zipExch c.trace c.replies with
